@@ -92,6 +92,8 @@ pub fn c18(seed: u64, n: usize) {
             let d = (t[k] - f[k]).rem_euclid(2.0 * PI);
             if f[k] != t[k] && (d < 1e-6 || 2.0 * PI - d < 1e-6) { t[k] += 0.01; }
         }
+        // ... except for exactly representable zero-width arcs (from = to + whole turns): only `from` is compliant
+        if i % 16 == 7 { f[0] = 2.0 * PI; t[0] = 0.0; f[3] = PI; t[3] = -PI; }
         let c = Constraints::new(f, t, 0.0);
         let mut l = Line::new("C18", fam, "c18");
         l.j6(&f).j6(&t).arrow();
